@@ -61,6 +61,15 @@ RAW = {
     "lateral_view/sparksql": ("sparksql", "INSERT INTO zqt1 SELECT a.ca, zqa1.cb FROM zqt2 AS a LATERAL VIEW explode(a.arr) zqa1 AS cb", lambda n: ([T(n["zqt2"])], [T(n["zqt1"])])),
     "update_join/mysql": ("mysql", "UPDATE zqt1 a JOIN zqt2 b ON a.id = b.id SET a.ca = b.cb", lambda n: ([T(n["zqt2"])], [T(n["zqt1"])])),
     "create_view_if_not_exists/ansi": ("ansi", "CREATE VIEW IF NOT EXISTS zqt1 AS SELECT ca FROM zqt2", lambda n: ([T(n["zqt2"])], [T(n["zqt1"])])),
+    # a recursive CTE names itself in its own body: never a table (a base table spelled like the CTE is shadowed)
+    "recursive_cte_bare/ansi": ("ansi", "WITH RECURSIVE zqd1 AS (SELECT ca FROM zqt1 UNION ALL SELECT zqd1.ca FROM zqd1 JOIN zqt2 ON zqd1.id = zqt2.id) SELECT ca FROM zqd1",
+                                lambda n: (_unshadowed(n, "zqd1", "zqt1", "zqt2"), [])),
+    "recursive_cte_insert/ansi": ("ansi", "INSERT INTO zqt3 WITH RECURSIVE zqd1 AS (SELECT ca FROM zqt1 UNION ALL SELECT zqd1.ca FROM zqd1 JOIN zqt2 ON zqd1.id = zqt2.id) SELECT ca FROM zqd1",
+                                  lambda n: (_unshadowed(n, "zqd1", "zqt1", "zqt2"), [T(n["zqt3"])])),
+    "recursive_cte_ctas_cte_second/postgres": ("postgres", "CREATE TABLE zqt3 AS WITH RECURSIVE zqd1 AS (SELECT ca FROM zqt1 UNION ALL SELECT b.ca FROM zqt2 AS b JOIN zqd1 ON zqd1.id = b.id) SELECT ca FROM zqd1",
+                                               lambda n: (_unshadowed(n, "zqd1", "zqt1", "zqt2"), [T(n["zqt3"])])),
+    "recursive_cte_no_keyword/tsql": ("tsql", "WITH zqd1 AS (SELECT ca FROM zqt1 UNION ALL SELECT zqd1.ca FROM zqd1 JOIN zqt2 ON zqd1.id = zqt2.id) INSERT INTO zqt3 SELECT ca FROM zqd1",
+                                      lambda n: (_unshadowed(n, "zqd1", "zqt1", "zqt2"), [T(n["zqt3"])])),
     "truncate/ansi": ("ansi", "TRUNCATE TABLE zqt1", lambda n: ([], [])),
     "delete_subquery/ansi": ("ansi", "DELETE FROM zqt1 WHERE id IN (SELECT id FROM zqt2)", lambda n: ([], [])),
     "show/sparksql": ("sparksql", "SHOW CREATE TABLE zqt1", lambda n: ([], [])),
@@ -70,6 +79,11 @@ RAW = {
     "refresh/sparksql": ("sparksql", "REFRESH TABLE zqt1", lambda n: ([], [])),
     "drop_view/ansi": ("ansi", "DROP VIEW IF EXISTS zqt1", lambda n: ([], [])),
 }
+
+
+def _unshadowed(n, cte, *tabs):
+    """the base tables among `tabs` that are not spelled like the CTE (case-insensitively)"""
+    return [T(n[t]) for t in tabs if not bool(n[t].lower() == n[cte].lower())]
 
 
 class RawTableOb(TemplateObligation):
